@@ -338,3 +338,46 @@ def r_metakey(P, chk):
         if not (okh and reads):
             chk.violation(rid, "metakey:order:%s" % fn, f.where(), "%s reads metadata_stack without first making sure the metadata "
                           "block was parsed" % fn)
+
+
+# ---------------------------------------------------------------------------
+# R-WRAPBIT (C20): who may read the complete/snippet switches
+
+WRAP_BITS = ("EXT_COMPLETE", "EXT_SNIPPET")
+# the wrapper layer: the decision (process_metadata_stack), the emission of header/footer around the body
+# (mmd_engine_export_token_tree) and the command line that sets the bits
+WRAP_LAYER = {"process_metadata_stack", "mmd_engine_export_token_tree", "main"}
+
+
+def r_wrapbit(P, chk):
+    rid = "R-WRAPBIT"
+    chk.rule(rid, "the EXT_COMPLETE / EXT_SNIPPET bits are referenced only by the wrapper layer (decision, header/footer emission, CLI) "
+                  "or by helpers called from nowhere else: lexer, parser and token exporters cannot see the switch")
+    edges, _, _ = P.callgraph()
+    callers = {}
+    for a, bs in edges.items():
+        for b in bs:
+            callers.setdefault(b, set()).add(a)
+    n = 0
+    for f in P.all_funcs:
+        if not P.first_party(f):
+            continue
+        refs = [x for x in f.walk() if x["k"] == "DeclRefExpr" and x.get("dk") == "Enum" and x["n"] in WRAP_BITS]
+        if not refs:
+            continue
+        n += len(refs)
+        ok = f.name in WRAP_LAYER
+        if not ok:
+            # a helper of the wrapper layer: every (transitive, depth <= 2) caller is in the layer
+            def layer_only(fid, depth):
+                cs = callers.get(fid, set()) - {fid}
+                if not cs:
+                    return False
+                return all(c[1] in WRAP_LAYER or (depth < 2 and layer_only(c, depth + 1)) for c in cs)
+            ok = layer_only(P.fid(f), 0)
+        chk.obligation(rid, "%s:%s references %s" % (f.unit.base, f.name, "/".join(sorted({r["n"] for r in refs}))), ok=ok)
+        if not ok:
+            chk.violation(rid, "wrapbit:%s:%s" % (f.unit.base, f.name), f.where(refs[0]),
+                          "%s reads %s outside the wrapper layer: the body rendering can now depend on -f / -s" % (f.name, refs[0]["n"]))
+    chk.floor(rid, n, 6, "references to the complete/snippet bits")
+    chk.analysed[rid] = {"references": n, "wrapper_layer": sorted(WRAP_LAYER)}
